@@ -28,6 +28,7 @@ import VaxisModel.Gen.ImageConsts
 import VaxisModel.Spec.Images
 import VaxisModel.Model.Placements
 import VaxisModel.Model.Window
+import VaxisModel.Model.ImageDraw
 
 namespace VaxisModel.Model.KittyTerm
 open VaxisModel.Gen.ImageConsts
@@ -300,5 +301,15 @@ def FramesKeyFun (cur : List Placement) : List WOp → Prop
   | .render :: r => KeyFun cur ∧ FramesKeyFun cur r
   | .refresh :: r => KeyFun cur ∧ FramesKeyFun cur r
   | .resize _ _ :: r => FramesKeyFun cur r
+
+/-- An application operation with its window (`ImageDraw.AOp`) as operations of this world (kitty images): a `Draw`
+    records its placement iff no gate returns (`ImageDraw.lower`, for `WOp`). -/
+def lowerW : VaxisModel.Model.ImageDraw.AOp → List WOp
+  | .drawImg gates hasData encoding id iw ih win =>
+    if VaxisModel.Model.ImageDraw.drawnWith gates hasData encoding iw ih win
+    then [.draw ⟨id, (win.origin).1, (win.origin).2, iw, ih⟩] else []
+  | .clear => [.clear]
+  | .render => [.render]
+  | .refresh => [.refresh]
 
 end VaxisModel.Model.KittyTerm
